@@ -184,31 +184,34 @@ def copy_inside_context_case(src_kind, how):
     return h
 
 
-def sibling_case(op, sib_kind):
-    """The target name has no extension and is absent; a file called <name>.tdf exists.
-    Creating / copying to <name> must leave every pre-existing file untouched."""
+def sibling_case(op, sib_kind, target="session", sibling="session.tdf"):
+    """The target is absent; a file with a related name exists next to it (<name>.tdf for an
+    extension-less target, <stem>.tmp, <name>.bak ...).  Creating / copying to the target
+    must leave every pre-existing file untouched."""
     def h(I):
         def P(label, cond, note=""):
             return I.prove(f"C17.{label}", cond, note)
         fs = I.fs()
         Tdf = I.mod("basictdf").Tdf
-        tinfo = _target(I, fs, sib_kind, "session.tdf")
-        pre = fs.obs("session.tdf")
+        tinfo = _target(I, fs, sib_kind, sibling)
+        pre = fs.obs(sibling)
         smodel = None
         if op == "copy":
             smodel, sspec = C.make_prestate(I, fs, "src.tdf", 2, (16,), tag="src")
             spre = fs.obs("src.tdf")
         try:
             if op == "new":
-                Tdf.new(fs.path("session"))
+                Tdf.new(fs.path(target))
             else:
-                Tdf(fs.path("src.tdf")).copy(fs.path("session"))
+                Tdf(fs.path("src.tdf")).copy(fs.path(target))
             exc = None
         except Exception as e:  # noqa: BLE001
             exc = e
         I.observe("exc", type(exc).__name__ if exc else None)
         # whatever the call did (create "session", or refuse): the sibling is untouched
-        _same_as(I, P, fs, "session.tdf", pre, tinfo, "sib", ".sibling_with_tdf_extension")
+        P("sibling_file_still_exists", fs.exists(sibling), sibling)
+        if fs.exists(sibling):
+            _same_as(I, P, fs, sibling, pre, tinfo, "sib", ".sibling_with_tdf_extension" if sibling.endswith(".tdf") else ".sibling_file")
         if op == "copy":
             unchanged(I, P, fs, spre, smodel, None, None, 2, "s", ".source_after_copy", name="src.tdf")
         I.goal("done")
@@ -328,6 +331,8 @@ def instances(tier):
     for op in ("new", "copy"):
         for sk in ("tdf21", "raw5", "raw0"):
             out.append(Instance(f"sibling.{op}.{sk}", sibling_case(op, sk), goals=["done"]))
+        for target, sibling in (("session.tdf", "session.tmp"), ("backup", "backup.tmp"), ("session.tdf", "session.tdf.bak"), ("session.tdf", "session.tdf~")):
+            out.append(Instance(f"sibling.{op}.{target}.next_to.{sibling}", sibling_case(op, "raw5" if op == "new" else "tdf21", target, sibling), goals=["done"]))
     for k in ["missing", "sig", "short0", "short5", "short15", "replaced0", "replaced16", "replaced40", "replaced_sig"]:
         out.append(Instance(f"open.{k}", open_case(k), goals=(["opened", "refused"] if k == "sig" else (["done"] if k == "missing" else ["refused"]))))
     return out
